@@ -10,8 +10,10 @@
      args = cfg table ops
        cfg   = [scion imode nts deadline server server_ia local_ia local]
        table = [[key nonce ad ct ok pt] ...]   AEAD Open answers recomputed by the harness with miscreant
-       ops   = [[0 [xchg ...] unused-scripts] | [1] | [2 ms] ...]     call / ResetInterleavedMode / pause (not modelled)
-       xchg  = [[ref ctx1 uid s2c authkey oireq [ke-cookie ...]] [event ...] recipe]
+       ops   = [[0 [xchg ...] unused-scripts [server ke-target ke-one mapped]] | [1] | [2 ms] ...]     call / ResetInterleavedMode / pause (not modelled)
+       xchg  = [[ref ctx1 uid s2c authkey oireq [ke-cookie ...] server port] [event ...] recipe]
+               (server, port: the remote address of this exchange - what the caller passed or, with NTS, what the key
+                exchange in force names)
                (ke-cookies: the cookies of the key exchange the client made for this exchange, if it made one)
        event = [0 before xflags front payload crx from_server uid_ok auth_ok [cookie ...] spao_ok] | [1 before]
                (cookies: the ones the datagram carries in authenticated fields, computed by the harness with the key;
@@ -103,10 +105,10 @@ Fixpoint parse_events (l : list value) : option (list event * list oview * list 
 Record pxchg := { px_env : xenv; px_views : list oview; px_oireq : bool; px_ke : list bytes; px_authentic : list bytes }.
 Definition parse_xchg (v : value) : option pxchg :=
   match v with
-  | VL [VL [VZ ref; VZ ctx1; VB uid; VB s2c; VZ ak; VZ oireq; VL ke]; VL evs; _] =>
+  | VL [VL [VZ ref; VZ ctx1; VB uid; VB s2c; VZ ak; VZ oireq; VL ke; VZ srv; VZ port]; VL evs; _] =>
       match parse_events evs, getBs ke with
       | Some (es, vs, cs), Some kes =>
-          Some {| px_env := {| e_ref := ref; e_ctx1 := ctx1; e_uid := uid; e_s2c := s2c; e_authkey := zb ak; e_evs := es |};
+          Some {| px_env := {| e_ref := ref; e_ctx1 := ctx1; e_uid := uid; e_s2c := s2c; e_authkey := zb ak; e_server := srv; e_port := port; e_evs := es |};
                   px_views := vs; px_oireq := zb oireq; px_ke := kes; px_authentic := cs |}
       | _, _ => None
       end
@@ -121,7 +123,7 @@ Fixpoint parse_xchgs (l : list value) : option (list pxchg) :=
 Inductive pop := PCall (xs : list pxchg) | PReset | PPause.
 Definition parse_op (v : value) : option pop :=
   match v with
-  | VL [VZ 0; VL xs; _] => match parse_xchgs xs with Some l => Some (PCall l) | None => None end
+  | VL [VZ 0; VL xs; _; _] => match parse_xchgs xs with Some l => Some (PCall l) | None => None end
   | VL [VZ 1] => Some PReset
   | VL [VZ 2; VZ _] => Some PPause
   | _ => None
@@ -211,7 +213,7 @@ Definition obs_of_xo (v : value) : option (oobs * (time64 * time64 * time64)) :=
 (* every exchange of a call meets C05_ok; exchanges the implementation made beyond the script have no views: an
    offset there is a violation.  [prev] is the oracle's own history (Model: oq_prev, C05_basis), threaded through the
    exchanges of a call and through the calls of the history; the result is the verdict and the history afterwards *)
-Fixpoint xchgs_ok (nts : bool) (prev : list time64) (xs : list pxchg) (obs : list value) : bool * list time64 :=
+Fixpoint xchgs_ok (nts : bool) (prev : list (Z * time64)) (xs : list pxchg) (obs : list value) : bool * list (Z * time64) :=
   match obs with
   | [] => (true, prev)
   | v :: orest =>
@@ -220,7 +222,8 @@ Fixpoint xchgs_ok (nts : bool) (prev : list time64) (xs : list pxchg) (obs : lis
       | Some (o, (org, rx, tx)) =>
           match xs with
           | x :: xrest =>
-              let oq := {| oq_nts := nts; oq_ireq := px_oireq x; oq_rx := rx; oq_tx := tx; oq_prev := prev;
+              let oq := {| oq_nts := nts; oq_ireq := px_oireq x; oq_rx := rx; oq_tx := tx;
+                           oq_sid := e_server (px_env x) * 65536 + e_port (px_env x); oq_prev := prev;
                            oq_ref := e_ref (px_env x) |} in
               let '(b, p) := xchgs_ok nts (C05_basis oq (px_views x) o) xrest orest in
               (C05_ok oq (px_views x) o && b, p)
@@ -235,7 +238,7 @@ Definition accepted_off (v : value) : option Z :=
   | VL [VZ 0; _; VL [_; _; _; _; VZ off]] => Some off
   | _ => None
   end.
-Definition call_ok (nts : bool) (prev : list time64) (xs : list pxchg) (before : list bytes) (v : value) : bool * list time64 :=
+Definition call_ok (nts : bool) (prev : list (Z * time64)) (xs : list pxchg) (before : list bytes) (v : value) : bool * list (Z * time64) :=
   match v with
   | VL [VZ code; VZ off; VL obs; VL poolv] =>
       let '(b, p) := xchgs_ok nts prev xs obs in
@@ -254,7 +257,7 @@ Definition pool_of (v : value) : list bytes :=
   | VL [_; _; _; VL poolv] => match getBs poolv with Some p => p | None => [] end
   | _ => []
   end.
-Fixpoint calls_ok (nts : bool) (prev : list time64) (before : list bytes) (ops : list pop) (outs : list value) : bool :=
+Fixpoint calls_ok (nts : bool) (prev : list (Z * time64)) (before : list bytes) (ops : list pop) (outs : list value) : bool :=
   match ops with
   | [] => match outs with [] => true | _ => false end
   | PCall xs :: r =>
@@ -267,7 +270,9 @@ Fixpoint calls_ok (nts : bool) (prev : list time64) (before : list bytes) (ops :
 
 Definition glue_C05 (k : string) (a o : list value) : option verdict :=
   if is k "ip.hist" || is k "scion.hist" || is k "scion.allfail" || is k "scion.auth" || is k "scion.nts" ||
-     is k "scion.ntsauth" || is k "scion.allfailauth" || is k "scion.addrtype" then
+     is k "scion.ntsauth" || is k "scion.allfailauth" || is k "scion.addrtype" ||
+     is k "ip.late" || is k "scion.late" || is k "scion.lateauth" || is k "ip.nofilter" || is k "scion.nofilter" ||
+     is k "ip6.hist" || is k "ip.servers" || is k "scion.servers" then
     match a with
     | [cfgv; VL tabv; VL opsv] =>
         match parse_cfg cfgv, table_of tabv, parse_ops opsv with
@@ -280,4 +285,12 @@ Definition glue_C05 (k : string) (a o : list value) : option verdict :=
     end
   else None.
 
-Definition run_case (k : string) (a o : list value) : verdict := first_some [glue_C05] k a o.
+(* "client.badlocal": a call with a local address that is not an IP address (regression of /repo b838846: both clients
+   used to return offset 0 with a nil error): args = scion, outs = [error-returned requests-seen]; nothing can be
+   sent, so the model's call has no exchange and no accumulated result: an error, never an offset *)
+Definition glue_badlocal (k : string) (a o : list value) : option verdict :=
+  if is k "client.badlocal" then
+    Some (functional [VZ 1; VZ 0] o (match o with VZ e :: _ => negb (e =? 0) | _ => false end))
+  else None.
+
+Definition run_case (k : string) (a o : list value) : verdict := first_some [glue_C05; glue_badlocal] k a o.
